@@ -5,10 +5,11 @@ import sys, os, json, shutil, glob, re
 ROOT = os.path.dirname(os.path.dirname(os.path.abspath(__file__)))
 pid, n = sys.argv[1], sys.argv[2]
 args = sys.argv[3:]
-patchfile = args[args.index("--patch") + 1] if "--patch" in args else f"/tmp/mut/{pid}-out/patch{n}.diff"
+wave = args[args.index("--wave") + 1] if "--wave" in args else ""      # "" or "2"
+patchfile = args[args.index("--patch") + 1] if "--patch" in args else f"/tmp/mut/{pid}-out{wave}/patch{n}.diff"
 note = args[args.index("--note") + 1] if "--note" in args else None
-src = f"/tmp/mut/{pid}-out"
-dst = os.path.join(ROOT, "seeded", f"{pid}-{n}")
+src = f"/tmp/mut/{pid}-out{wave}"
+dst = os.path.join(ROOT, "seeded", f"{pid}-{n}" if not wave else f"{pid}-w{wave}-{n}")
 os.makedirs(dst, exist_ok=True)
 shutil.copy(patchfile, f"{dst}/patch.diff")
 shutil.copy(f"{src}/demo{n}.diff", f"{dst}/demo.diff")
@@ -20,7 +21,7 @@ except Exception as e:
 confirm = None
 for f in sorted(glob.glob("/tmp/confirm_*.log")):
     txt = open(f).read()
-    m = re.search(r"#### %s %s\n(.*?)(?=\n#### |\Z)" % (pid, n), txt, re.S)
+    m = re.search(r"#### %s%s %s\n(.*?)(?=\n#### |\Z)" % (pid, ("w" + wave) if wave else "", n), txt, re.S)
     if m:
         body = m.group(1)
         lines = [l for l in body.splitlines() if l.startswith("passed") or "FAILED" in l and l.startswith("test ")]
@@ -30,7 +31,9 @@ ROUNDS = [("/tmp/det_all.log", "round 1 (machinery as first built, commit ba9e68
           ("/tmp/try_q2.log", "round 2 (after the first strengthening, commit fbbdce9)"),
           ("/tmp/try_q3.log", "round 3 (after the second strengthening, commit 14ceb53+)"),
           ("/tmp/try_q4.log", "round 4 (after the third strengthening)"),
-          ("/tmp/try_q5.log", "round 5")]
+          ("/tmp/try_q5.log", "thorough tier (final machinery of wave 1)"),
+          ("/tmp/try_w2.log", "wave 2, first evaluation"),
+          ("/tmp/try_w2b.log", "wave 2, after strengthening")]
 det = []
 base = os.path.basename(patchfile)
 for f, label in ROUNDS:
@@ -41,7 +44,7 @@ for f, label in ROUNDS:
             j = json.loads(l)
         except Exception:
             continue
-        if j.get("patch") in (f"{pid}-out/patch{n}.diff", f"{pid}-out/{base}"):
+        if j.get("patch") in (f"{pid}-out{wave}/patch{n}.diff", f"{pid}-out{wave}/{base}"):
             det.append({"round": label, **{k: j[k] for k in ("check", "exit", "violations", "guards", "known") if k in j}})
 out = {"breaks_property": pid, "summary": meta.get("summary"), "needs_to_manifest": meta.get("needs_to_manifest"),
        "files": meta.get("files"), "author": "independent sub-agent given only the property text and a scratch worktree of /repo",
